@@ -9,6 +9,8 @@
   KDE values and normalisation.
 -/
 import LpProofs.C07.Sums
+-- coverage extension: PDF_Gauss_2D (property theorems in this module)
+import LpProofs.C07.Gauss2D
 import Mathlib.Data.Nat.Choose.Sum
 import Mathlib.Tactic.FieldSimp
 import Mathlib.Tactic.Positivity
